@@ -352,6 +352,20 @@ def minMaxCore (isMax : Bool) (s : Seq) : R :=
       else .ok [extremum (fun x y => XV.lt (exact x) (exact y)) isMax a rest]
     else .error .FORG0006
 
+/-- §14.4.3 / §14.4.4 read word by word, for numeric input that contains an xs:double: every
+value is converted to xs:double; the result is "an item of the converted sequence such that no
+other item is greater (less)"; which one of several such items is implementation-dependent. -/
+def IsExtremeOfConverted (isMax : Bool) (s : Seq) (r : D) : Prop :=
+  r ∈ s.map toDouble ∧ ∀ y ∈ s.map toDouble, (if isMax then D.lt r y else D.lt y r) = false
+
+/-- "the promotion to xs:double is monotone on the values of `s`": whenever the promoted `x` is
+below the promoted `y`, the exact `x` is below the exact `y`.  True for every sequence of
+representable doubles, integers and decimals because IEEE 754 round-to-nearest is monotone; that
+fact about the kernel function `rnd` is not proved, the condition is decidable per input and the
+driver evaluates it on every fn:max / fn:min it runs. -/
+def promotionMonotoneOn (s : Seq) : Bool :=
+  s.all fun x => s.all fun y => !(D.lt (toDouble x) (toDouble y)) || XV.lt (exact x) (exact y)
+
 /-- fn:sum / fn:avg / fn:max / fn:min on arbitrary items: untyped values and nodes are cast first -/
 def fnSum (sm : Summation) (doc : List String) (s : Seq) (zero : Option Seq) : R :=
   ((castUntyped s).bind (castNodes doc)).bind fun v => sumCore sm v zero
